@@ -321,7 +321,7 @@ def run_uniformity(ctx, tap):
 
 
 def run(ctx):
-    n = ctx.n(60, 300)
+    n = ctx.n(60, 900)
     with RngTap() as tap:
         for it in range(n):
             if ctx.out_of_time():
